@@ -13,6 +13,16 @@ Ok(ev) == CASE ev.e = "store" -> StoreAllowed(ev)
             [] ev.e = "entry" -> EntryAllowed(ev)
             [] ev.e = "setup" -> TRUE
             [] OTHER -> FALSE
-Bad == {i \in 1..Len(T) : ~Ok(T[i])}
-ASSUME PrintT(<<"RESULT", ToJson([bad |-> Bad, n |-> Len(T)])>>)
+CONSTANT OpenFindings     \* ids of the open entries of known_findings.json
+\* Named deviations: what the code is known to do outside the Contract (DESIGN.md section 7).
+\* D21: p[n] designates an element by the address of its first byte alone; when the element
+\*      itself straddles the end of sandbox memory, the address of one of its fields / elements
+\*      (&p[n].f) is a tainted pointer beyond the last byte of the sandbox.
+Deviation(ev) ==
+  IF "D21" \in OpenFindings /\ ev.e = "ptrchain" /\ ev.op = "&PS[0].d" /\ ev.out = "ok" /\ ev.cls = "out"
+     /\ ev.from >= 0 /\ ev.from + ev.pssize > ev.size
+    THEN "D21" ELSE ""
+Known == {i \in 1..Len(T) : ~Ok(T[i]) /\ Deviation(T[i]) # ""}
+Bad == {i \in 1..Len(T) : ~Ok(T[i]) /\ Deviation(T[i]) = ""}
+ASSUME PrintT(<<"RESULT", ToJson([bad |-> Bad, known |-> {[i |-> i, id |-> Deviation(T[i])] : i \in Known}, n |-> Len(T)])>>)
 =============================================================================
